@@ -6,7 +6,7 @@ of L property entries; after every transition every observer of the real object 
 reference model (mc.model.ref_decl / ref_vars) stepped in lock-step.  Plus one exhaustive table: the
 DOM (camel-case) <-> CSS name mapping and attribute access for every known property name.
 
-History = list of JSON ops; the first op is ['seed', block, text].  Ops of the style block:
+History = list of JSON ops; the first op is ['seed', block, index of the seed text].  Ops of the style block:
   ['set', n, v, p, normalize, replace]      style.setProperty(n, v, p, normalize=, replace=)
   ['setobj', n, v, p, normalize, replace]   style.setProperty(Property(n, v, p), normalize=, replace=)
   ['rm', n, normalize]                      style.removeProperty(n, normalize=)
@@ -31,13 +31,15 @@ from mc.result import Result, h64, jdump
 ID = 'C10'
 LEVEL = 'model_checking'
 RULE = (
-    'explicit-state BFS over histories of declaration-block operations on the real objects, deduplicated on an over-fine '
-    'canonical key (block kind; every item in order: comment text or literal name, normalised name, value, priority, literal '
-    'priority; default serialisation; for variables also the API view); every state with <= L property entries is expanded with '
-    'EVERY operation of the alphabet (closure, not a depth cut); the reference model is stepped in lock-step and every observer '
-    'is compared after every transition. Each (state, operation) pair is explored exactly once; non-trivial = the source state '
-    'holds at least two entries with the same normalised name (style) / at least one variable (vars). Table: every known '
-    'property name x {empty block, block with duplicates of mixed priority}.'
+    'explicit-state BFS over histories of declaration-block operations on the real objects (a state is rebuilt by replaying its '
+    'history on a fresh object), deduplicated on an over-fine canonical key (block; every item in order: comment text or literal '
+    'name, normalised name, value, priority; the default serialisation; for variables the API view, the item list and the serialisation); '
+    'every state with <= L property entries is expanded with EVERY operation of its block (closure, not a depth cut); the reference '
+    'model is stepped in lock-step and every observer is compared after every transition, a refused operation must leave the block '
+    'unchanged. Each (state, operation) pair is explored exactly once; non-trivial = the source state holds at least two entries with '
+    'the same normalised name (style) / at least one variable (vars). A finding seen through a convenience form (item/attribute access, '
+    'Property object) is filed under the plain method when the plain call shows the same finding from the same state. '
+    'Table: every known property name x {empty block, block with duplicates of mixed priority} x {get, set, set "", del}.'
 )
 ASSUMPTIONS = [
     'stored literal names are the given spelling lower-cased (simple escapes kept); with normalize=False "the name" is that literal name',
@@ -203,7 +205,8 @@ def bounds(tier):
         if block == 'vars':
             out['vars_L'] = cfg['L']
             continue
-        out[block] = {'L_completed': cfg['L'], 'Lc_completed': cfg['Lc'], 'values': cfg['values'] + ['', None], 'priorities': cfg['prios'] + [None], 'operations_per_state': len(style_ops(tier, block))}
+        prios = sorted({op[3] for op in style_ops(tier, block) if op[0] in ('set', 'setobj', 'item2') and op[3] is not None}) + [None]
+        out[block] = {'L_completed': cfg['L'], 'Lc_completed': cfg['Lc'], 'values': cfg['values'] + ['', None], 'priorities': prios, 'operations_per_state': len(style_ops(tier, block))}
     return out
 
 
